@@ -170,7 +170,10 @@ Definition from_ok (q : query) : bool :=
   let aliases := List.map snd (q_from q) in
   nodupb kinds && nodupb aliases
   && forallb (fun k => match kind_bindings k with Some _ => true | None => false end) kinds
-  && forallb (fun a => negb (existsb (fun '(_, d) => bytes_eqb a d) engine_var_default)) aliases.
+  && forallb (fun a => negb (existsb (fun '(_, d) => bytes_eqb a d) engine_var_default)) aliases
+  (* an alias spelled like a word of the condition language itself (nil, true, not, len ...) is read by the evaluator
+     as that word, not as the alias: outside the fragment *)
+  && forallb (fun a => negb (expr_builtin a)) aliases.
 
 (* is any candidate outside the modelled fragment?  (then the harness does not compare) *)
 Definition in_fragment (q : query) (g : list node) : bool :=
